@@ -328,3 +328,69 @@ Proof.
     do 6 (destruct x as [|x]; [do 6 (destruct y as [|y]; [vm_compute; congruence|]); lia|]). lia.
   - intros r Hr. do 4 (destruct r as [|r]; [vm_compute; tauto|]). lia.
 Qed.
+
+(* =========================================================================================== *)
+(** * Secondary outputs as REGENERATED FROM sknetwork/clustering/base.py
+
+    [src_secondary_*] (Gen/NpSecondary.v) are the expressions that BaseClustering._secondary_outputs assigns to [probs_],
+    [aggregate_] (square case) and to [probs_row_], [probs_col_], [aggregate_] (bipartite case), translated on every run
+    by harness/translators/npvec.py into the array language of Model/NpVec.v; [rvdenote] is its NumPy / SciPy semantics
+    over R.  For EVERY non-negative matrix (index function) and every non-negative label vectors: one non-negative row per
+    node that sums to 1 (to 0 when the node has no outgoing weight); the aggregate is the sum of the edge weights between
+    clusters and its total is the total edge weight. *)
+From SKN Require Import Model.NpExpr Model.NpVec Gen.NpSecondary Proofs.NpVecProofs Proofs.NpModularityProofs Proofs.NpSecondaryProofs.
+From Coq Require Import Reals Lra.
+Local Open Scope R_scope.
+
+Theorem source_secondary_probs (n : nat) (A : nat -> nat -> R) (l : list Z) :
+  labels_ok n l -> nonneg_mat n A ->
+  exists f, rvdenote (env_sec n A l) src_secondary_probs = Some (WM n (nlab l) f) /\
+    forall i, (i < n)%nat ->
+      (forall c, (c < nlab l)%nat -> 0 <= f i c) /\
+      (0 < rsum n (A i) -> rsum (nlab l) (f i) = 1) /\
+      (rsum n (A i) = 0 -> forall c, (c < nlab l)%nat -> f i c = 0).
+Proof. exact (NpSecondaryProofs.source_secondary_probs n A l). Qed.
+Print Assumptions source_secondary_probs.
+
+Theorem source_secondary_aggregate (n : nat) (A : nat -> nat -> R) (l : list Z) :
+  labels_ok n l ->
+  exists f, rvdenote (env_sec n A l) src_secondary_aggregate = Some (WM (nlab l) (nlab l) f) /\
+    (forall c d, f c d = rsum n (fun i => rsum n (fun j => NpModularityProofs.ind l i c * A i j * NpModularityProofs.ind l j d))) /\
+    rsum (nlab l) (fun c => rsum (nlab l) (f c)) = rsum n (fun i => rsum n (A i)).
+Proof. exact (NpSecondaryProofs.source_secondary_aggregate n A l). Qed.
+Print Assumptions source_secondary_aggregate.
+
+Theorem source_secondary_probs_row (n1 n2 : nat) (B : nat -> nat -> R) (lr lc : list Z) :
+  labels_ok n1 lr -> labels_ok n2 lc -> nonneg_rect n1 n2 B ->
+  exists f, rvdenote (env_sec_bip n1 n2 B lr lc) src_secondary_probs_row = Some (WM n1 (nlab2 lr lc) f) /\
+    forall i, (i < n1)%nat ->
+      (forall c, (c < nlab2 lr lc)%nat -> 0 <= f i c) /\
+      (0 < rsum n2 (B i) -> rsum (nlab2 lr lc) (f i) = 1) /\
+      (rsum n2 (B i) = 0 -> forall c, (c < nlab2 lr lc)%nat -> f i c = 0).
+Proof. exact (NpSecondaryProofs.source_secondary_probs_row n1 n2 B lr lc). Qed.
+Print Assumptions source_secondary_probs_row.
+
+Theorem source_secondary_probs_col (n1 n2 : nat) (B : nat -> nat -> R) (lr lc : list Z) :
+  labels_ok n1 lr -> labels_ok n2 lc -> nonneg_rect n1 n2 B ->
+  exists f, rvdenote (env_sec_bip n1 n2 B lr lc) src_secondary_probs_col = Some (WM n2 (nlab2 lr lc) f) /\
+    forall j, (j < n2)%nat ->
+      (forall c, (c < nlab2 lr lc)%nat -> 0 <= f j c) /\
+      (0 < rsum n1 (fun i => B i j) -> rsum (nlab2 lr lc) (f j) = 1) /\
+      (rsum n1 (fun i => B i j) = 0 -> forall c, (c < nlab2 lr lc)%nat -> f j c = 0).
+Proof. exact (NpSecondaryProofs.source_secondary_probs_col n1 n2 B lr lc). Qed.
+Print Assumptions source_secondary_probs_col.
+
+Theorem source_secondary_aggregate_bip (n1 n2 : nat) (B : nat -> nat -> R) (lr lc : list Z) :
+  labels_ok n1 lr -> labels_ok n2 lc ->
+  exists f, rvdenote (env_sec_bip n1 n2 B lr lc) src_secondary_aggregate_bip = Some (WM (nlab2 lr lc) (nlab2 lr lc) f) /\
+    (forall c d, f c d = rsum n1 (fun i => rsum n2 (fun j => NpModularityProofs.ind lr i c * B i j * NpModularityProofs.ind lc j d))) /\
+    rsum (nlab2 lr lc) (fun c => rsum (nlab2 lr lc) (f c)) = rsum n1 (fun i => rsum n2 (B i)).
+Proof. exact (NpSecondaryProofs.source_secondary_aggregate_bip n1 n2 B lr lc). Qed.
+Print Assumptions source_secondary_aggregate_bip.
+
+Example c05_nonvacuous_source : labels_ok 3 (1 :: 0 :: 1 :: nil)%Z /\ nonneg_mat 3 (fun i j => if Nat.eqb i j then 0 else 1).
+Proof.
+  split.
+  - split; [reflexivity|]. intros [|[|[|i]]] Hi; try lia; cbn; lia.
+  - intros i j _ _. destruct (Nat.eqb i j); lra.
+Qed.
